@@ -23,6 +23,12 @@ class PathLimit(Unsupported):
     pass
 
 
+def modelled(exc):
+    """mark an exception raised by a dependency contract because the real primitive raises it"""
+    exc.modelled = True
+    return exc
+
+
 # ------------------------------------------------------------------------------------------------ context
 class Ctx:
     def __init__(self):
@@ -109,9 +115,29 @@ def explore(thunk, base_hyps_fn=None, max_paths=48):
         except Unsupported:
             raise
         except Exception as e:  # the function under verification raised on this path
+            if _is_proxy_limitation(e):
+                raise Unsupported(f"proxy limitation: {type(e).__name__}: {e}") from e
             out = dict(outcome="raise", exc=e)
         out.update(pc=list(CTX.pc), hyps=list(CTX.hyps), obs=list(CTX.obs), decisions=list(CTX.prefix), trace=list(CTX.trace))
         yield out
+
+
+_PROXY_NAMES = ("AMat", "SScal", "SInt", "SBool", "BCol", "BRow", "Outer", "PermProxy", "AbstractOp", "FnProbe", "missing")
+
+
+def _is_proxy_limitation(e):
+    """A TypeError/AttributeError/NotImplementedError caused by a proxy that does not implement an operation is a limit of
+    the VC generator (-> unsupported), not behaviour of the code under verification."""
+    import traceback as _tb
+    if getattr(e, "modelled", False):
+        return False
+    if not isinstance(e, (TypeError, AttributeError, NotImplementedError)):
+        return False
+    msg = str(e)
+    if any(nm in msg for nm in _PROXY_NAMES):
+        return True
+    tb = _tb.extract_tb(e.__traceback__)
+    return bool(tb) and "/vcgen/" in tb[-1].filename
 
 
 # ------------------------------------------------------------------------------------------------ booleans
